@@ -159,10 +159,14 @@ func (x *Exec) obligeAt(s *State, cls, site string, pos interface{}, cond *Term)
 }
 
 func (x *Exec) applyGhost(fc *frameCtx, st, old *State, g GhostUpdate) {
+	x.applyGhostB(fc, st, old, g, nil)
+}
+
+func (x *Exec) applyGhostB(fc *frameCtx, st, old *State, g GhostUpdate, b binds) {
 	if g.Loc.Kind != "sel" {
 		oos("ghost-return location must be x.f")
 	}
-	base := x.eval(fc, st, old, g.Loc.Args[0], nil)
+	base := x.eval(fc, st, old, g.Loc.Args[0], b)
 	ref, t := x.structRefOf(base)
 	n, ok := t.(*types.Named)
 	if !ok {
@@ -172,7 +176,7 @@ func (x *Exec) applyGhost(fc *frameCtx, st, old *State, g GhostUpdate) {
 	if gf == nil {
 		oos("no ghost field %s", g.Loc.Name)
 	}
-	val := x.eval(fc, st, old, g.Expr, nil).V.(*Term)
+	val := x.eval(fc, st, old, g.Expr, b).V.(*Term)
 	key := "F:" + typeName(t) + "." + gf.Name
 	h := x.heapGet(st, key, arrSort(ghostSort(gf.Sort)))
 	x.heapSet(st, key, tStore(h, ref, val))
